@@ -1,0 +1,50 @@
+//go:build verif
+
+package merkle
+
+// Contracts for the deductive checks in /verif (read by /verif/govc; comment-only, no code).
+
+//@ spec func leafH(leaf []byte) []byte = tmhashSum(concat(leafPrefix, leaf))
+//@ spec func innerH(l []byte, r []byte) []byte = tmhashSum(concat(innerPrefix, concat(l, r)))
+
+//@ func leafHash
+//@   assigns nothing
+//@   ensures def: result == leafH(leaf)
+
+//@ func innerHash
+//@   assigns nothing
+//@   ensures def: result == innerH(left, right)
+
+// getSplitPoint(n): largest power of two strictly less than n (n >= 2); 0 for n == 1. `pure`: the body is checked to be
+// a function of its argument, so the specification below may mention getSplitPoint(n) itself.
+//@ func getSplitPoint
+//@   pure
+//@   requires length >= 1
+//@   assigns nothing
+//@   ensures one: length == 1 ==> result == 0
+//@   ensures range: length >= 2 ==> 1 <= result && result < length && length <= 2 * result
+//@   ensures pow: length >= 2 ==> exists(e, 0, 63, result == pow2(e), ite(pow2(bitlen-1) == length, bitlen-2, bitlen-1))
+
+// pathRoot: the root computed from a leaf hash and its aunts for position index of total (nil if the shape is wrong).
+//@ spec func pathRoot(index int64, total int64, leaf []byte, aunts [][]byte) []byte =
+//@   | ite(index < 0 || index >= total || total <= 0, nil,
+//@   |  ite(total == 1, ite(len(aunts) == 0, leaf, nil),
+//@   |   ite(len(aunts) <= 0, nil,
+//@   |    ite(index < getSplitPoint(total),
+//@   |     ite(pathRoot(index, getSplitPoint(total), leaf, aunts[:len(aunts)-1]) == nil, nil,
+//@   |         innerH(pathRoot(index, getSplitPoint(total), leaf, aunts[:len(aunts)-1]), aunts[len(aunts)-1])),
+//@   |     ite(pathRoot(index - getSplitPoint(total), total - getSplitPoint(total), leaf, aunts[:len(aunts)-1]) == nil, nil,
+//@   |         innerH(aunts[len(aunts)-1], pathRoot(index - getSplitPoint(total), total - getSplitPoint(total), leaf, aunts[:len(aunts)-1])))))))
+
+//@ func computeHashFromAunts
+//@   assigns nothing
+//@   ensures bound: result != nil ==> 0 <= index && index < total
+//@   ensures spec: result == old(pathRoot(index, total, leafHash, innerHashes))
+
+// Proof.Verify accepts only if the stated index lies in [0, total), the leaf hash is the hash of the leaf, and the
+// path determined by (index, total) folds the aunts to exactly the root.
+//@ func Proof.Verify
+//@   assigns nothing
+//@   ensures idx: result == nil ==> 0 <= sp.Index && sp.Index < sp.Total
+//@   ensures leaf: result == nil ==> sp.LeafHash == leafH(leaf)
+//@   ensures root: result == nil ==> rootHash == pathRoot(sp.Index, sp.Total, sp.LeafHash, sp.Aunts) && rootHash != nil
